@@ -106,7 +106,7 @@ def reader_writer_tables(ctx, rule='C05.reader-writer-tables'):
                 res.append(ok(rule, '%s.%s (read by %s) is written by the serialiser' % (adt, fld, ', '.join(sorted(who))[:80]), sites=len(who)))
             else:
                 res.append(bad(rule, '%s.%s | read but never written' % (adt, fld), 'readers %s use %s.%s, which the node serialiser never writes' % (sorted(who), adt, fld)))
-    f = floor(rule, 'element fields read outside the serialiser', n, 6)
+    f = floor(rule, 'element fields read outside the serialiser', n, 3)
     if f:
         res.append(f)
     return res
@@ -378,7 +378,7 @@ def run_length(ctx, rule='C05.run-length'):
                         res.append(ok(rule, '%s.%s at %s is overflow + 1' % (adt, fld, fn.loc(bb, si)), sites=1))
                     else:
                         res.append(bad(rule, '%s | %s.%s is not overflow + 1' % (fn.qual, adt, fld), '%s.%s at %s is derived from Page.overflow but not as `overflow + 1`' % (adt, fld, fn.loc(bb, si)), where=fn.loc(bb, si)))
-    f = floor(rule, 'run-length computations from Page.overflow', n, 4)
+    f = floor(rule, 'run-length computations from Page.overflow', n, 2)
     if f:
         res.append(f)
     return res
